@@ -40,7 +40,9 @@ def run_C13(res, tier, seed, t_end):
                 forms.append((tag, db, 'aio(server,db)', far.FakeRedis(server=srv, db=db)))
                 forms.append((tag, db, 'aio.from_url', far.FakeRedis.from_url('redis://localhost:6379/%d' % db, server=srv)))
         fresh = [('F%d' % i, 0, 'fresh', f()) for i, f in enumerate([lambda: fakeredis.FakeStrictRedis(), lambda: fakeredis.FakeRedis(),
-                 lambda: fakeredis.FakeStrictRedis.from_url('redis://localhost'), lambda: far.FakeRedis()])]
+                 lambda: fakeredis.FakeStrictRedis.from_url('redis://localhost'), lambda: far.FakeRedis(),
+                 lambda: fakeredis.FakeStrictRedis.from_url('redis://localhost'), lambda: fakeredis.FakeRedis.from_url('redis://localhost/0'),
+                 lambda: far.FakeRedis.from_url('redis://localhost'), lambda: far.FakeRedis.from_url('redis://localhost')])]
 
         def call(cl, *args):
             r = cl.execute_command(*args)
@@ -57,14 +59,14 @@ def run_C13(res, tier, seed, t_end):
             res.evaluations += 1
             res.cells.add(('construct', form, db == 0))
             if got != want:
-                res.findings.append(finding('C13', 'clients_share_or_isolate', 'client %s of server %s db %d read %r, expected %r' % (form, tag, db, got, want)))
+                res.add(finding('C13', 'clients_share_or_isolate', 'client %s of server %s db %d read %r, expected %r' % (form, tag, db, got, want)))
                 return
             call(cl, 'SET', key, val)
             expect[(tag, db)] = val
         for tag, db, form, cl in forms + fresh:
             got = call(cl, 'GET', b'k')
             if got != expect[(tag, db)]:
-                res.findings.append(finding('C13', 'clients_share_or_isolate', 'after all writes client %s of %s/%d read %r expected %r' % (form, tag, db, got, expect[(tag, db)])))
+                res.add(finding('C13', 'clients_share_or_isolate', 'after all writes client %s of %s/%d read %r expected %r' % (form, tag, db, got, expect[(tag, db)])))
                 return
             if asyncio.iscoroutinefunction(getattr(cl, 'close', None)):
                 try:
@@ -114,7 +116,7 @@ def run_C17(res, tier, seed, t_end):
             try:
                 a, b = raw.execute_command(*c), dec.execute_command(*c)
             except Exception as e:
-                res.findings.append(finding('C17', 'decode_deep', '%r raised %r' % (c, e)))
+                res.add(finding('C17', 'decode_deep', '%r raised %r' % (c, e)))
                 return
             res.evaluations += 1
             res.cells.add(('decode', c[0]))
@@ -123,11 +125,35 @@ def run_C17(res, tier, seed, t_end):
             bb = b if not isinstance(b, (set,)) else sorted(b)
             ok = deep_decode(a) == plain(b) or (c[0] in ('ZRANGE', 'INCRBYFLOAT') and _loose_eq(deep_decode(a), plain(b)))
             if not ok:
-                res.findings.append(finding('C17', 'decode_deep', '%r: raw %r decoded client %r' % (c, a, b)))
+                res.add(finding('C17', 'decode_deep', '%r: raw %r decoded client %r' % (c, a, b)))
                 return
             if not _all_bytes(a):
-                res.findings.append(finding('C17', 'raw_is_bytes', '%r with decode_responses=False returned a str inside %r' % (c, a)))
+                res.add(finding('C17', 'raw_is_bytes', '%r with decode_responses=False returned a str inside %r' % (c, a)))
                 return
+        # DUMP is never decoded, RESTORE takes it back
+        dec.execute_command('SET', 'dk', v1)
+        try:
+            payload = dec.dump('dk')
+            ok_dump = isinstance(payload, bytes) and dec.restore('dk2', 0, payload) and dec.get('dk2') == v1
+        except Exception as e:
+            ok_dump, payload = False, repr(e)
+        res.evaluations += 1
+        if not ok_dump:
+            res.add(finding('C17', 'dump_not_decoded', 'decode_responses=True: DUMP/RESTORE of %r gave %r' % (v1, payload)))
+            return
+        # the configured error handler is used for bytes that are not valid in the encoding
+        rep = fakeredis.FakeStrictRedis(decode_responses=True, encoding_errors='replace')
+        raw.execute_command('SET', 'bad', b'ab\xff\xfecd')
+        rep2 = fakeredis.FakeStrictRedis(server=raw.connection_pool.connection_kwargs['server'], decode_responses=True, encoding_errors='replace')
+        try:
+            got = rep2.get('bad')
+            lst = rep2.execute_command('MGET', 'bad', 'nokey')
+        except Exception as e:
+            got, lst = repr(e), None
+        res.evaluations += 1
+        if got != b'ab\xff\xfecd'.decode('utf-8', 'replace') or lst != [got, None]:
+            res.add(finding('C17', 'encoding_errors_honoured', "encoding_errors='replace': GET gave %r, MGET %r" % (got, lst)))
+            return
         # pipelines and transactions keep the bytes
         blob = bytes(rng.randrange(256) for _ in range(rng.choice([1, 10, 1000])))
         p = raw.pipeline(transaction=rng.random() < 0.5)
@@ -135,7 +161,7 @@ def run_C17(res, tier, seed, t_end):
         out = p.execute()
         res.evaluations += 1
         if out[1] != blob or out[3] != blob + b'\r\n':
-            res.findings.append(finding('C17', 'stored_bytes_unchanged', 'pipeline stored %r read %r' % (blob, out)))
+            res.add(finding('C17', 'stored_bytes_unchanged', 'pipeline stored %r read %r' % (blob, out)))
             return
         # pub/sub messages are decoded too
         ps = dec.pubsub()
@@ -145,7 +171,7 @@ def run_C17(res, tier, seed, t_end):
         m = ps.get_message(timeout=0.5)
         res.evaluations += 1
         if not m or m['data'] != v1 or m['channel'] != 'ch':
-            res.findings.append(finding('C17', 'decode_deep', 'pub/sub message %r for %r' % (m, v1)))
+            res.add(finding('C17', 'decode_deep', 'pub/sub message %r for %r' % (m, v1)))
             return
         ps.close()
 
@@ -186,16 +212,16 @@ def run_C20(res, tier, seed, t_end):
             res.evaluations += 1
             try:
                 r.execute_command(*c)
-                res.findings.append(finding('C20', 'outage_no_effect', '%r succeeded while the server is marked disconnected' % (c,)))
+                res.add(finding('C20', 'outage_no_effect', '%r succeeded while the server is marked disconnected' % (c,)))
                 return
             except redis.ConnectionError:
                 pass
             except Exception as e:
-                res.findings.append(finding('C20', 'outage_no_effect', '%r raised %r instead of ConnectionError' % (c, e)))
+                res.add(finding('C20', 'outage_no_effect', '%r raised %r instead of ConnectionError' % (c, e)))
                 return
         try:
             p = r.pipeline(); p.set('a', '3'); p.execute()
-            res.findings.append(finding('C20', 'outage_no_effect', 'pipeline succeeded during outage'))
+            res.add(finding('C20', 'outage_no_effect', 'pipeline succeeded during outage'))
             return
         except redis.ConnectionError:
             pass
@@ -203,7 +229,7 @@ def run_C20(res, tier, seed, t_end):
         after = (r.dbsize(), r.get('a'), r.lrange('l', 0, -1), r.ttl('t') > 0)
         res.cells.add(('outage', rnd % 3))
         if before != after:
-            res.findings.append(finding('C20', 'reconnect_restores', 'before %r after %r' % (before, after)))
+            res.add(finding('C20', 'reconnect_restores', 'before %r after %r' % (before, after)))
             return
         # close / GC in every mode
         pub = fakeredis.FakeStrictRedis(server=srv)
@@ -216,7 +242,7 @@ def run_C20(res, tier, seed, t_end):
             (ps.subscribe if mode == 'subscribed' else ps.psubscribe)('ch' if mode == 'subscribed' else 'c*')
             ps.get_message(timeout=0.1)
             if pub.publish('ch', 'm') != 1:
-                res.findings.append(finding('C20', 'closed_socket_forgotten', 'subscriber not counted before close'))
+                res.add(finding('C20', 'closed_socket_forgotten', 'subscriber not counted before close'))
                 return
         elif mode in ('watching', 'multi'):
             pipe = victim.pipeline()
@@ -243,14 +269,14 @@ def run_C20(res, tier, seed, t_end):
         res.cells.add(('forget', mode, how))
         leftover_subs = sum(len(list(ws)) for ws in list(srv.subscribers.values()) + list(srv.psubscribers.values()))
         if n != 0 or leftover_subs != 0:
-            res.findings.append(finding('C20', 'closed_socket_forgotten', 'mode %s closed by %s: PUBLISH counts %d, %d sockets still subscribed' % (mode, how, n, leftover_subs)))
+            res.add(finding('C20', 'closed_socket_forgotten', 'mode %s closed by %s: PUBLISH counts %d, %d sockets still subscribed' % (mode, how, n, leftover_subs)))
             return
         if pub.get('a') != b'changed':
-            res.findings.append(finding('C20', 'closed_socket_forgotten', 'queue of the closed client was executed: a=%r' % pub.get('a')))
+            res.add(finding('C20', 'closed_socket_forgotten', 'queue of the closed client was executed: a=%r' % pub.get('a')))
             return
         watchers = sum(len(list(ws)) for db in srv.dbs.values() for ws in db._watches.values())
         if watchers != 0:
-            res.findings.append(finding('C20', 'closed_socket_forgotten', 'mode %s closed by %s: %d watcher(s) left' % (mode, how, watchers)))
+            res.add(finding('C20', 'closed_socket_forgotten', 'mode %s closed by %s: %d watcher(s) left' % (mode, how, watchers)))
             return
 
 
@@ -310,5 +336,5 @@ def run_C20_asyncio(res, tier, seed, t_end):
             res.evaluations += 1
             res.cells.add(('aio-forget', mode))
             if msg or errors:
-                res.findings.append(finding('C20', 'closed_socket_forgotten(asyncio)', msg or ('task exception: %s' % errors[:2])))
+                res.add(finding('C20', 'closed_socket_forgotten(asyncio)', msg or ('task exception: %s' % errors[:2])))
                 return
